@@ -38,6 +38,8 @@ structure Inv (s : Sys) : Prop where
   iterHead : ∀ t ∈ s.iterating, ∃ i rest, s.threads[t]? = some (.iterNext i :: rest) ∧
                s.acc t = (s.m.take i).map (·.2) ∧ s.began t = s.m
   iterConv : ∀ t i rest, s.threads[t]? = some (.iterNext i :: rest) → t ∈ s.iterating
+  restActs : ∀ (t : Nat) (task : Task) (rest : List Task), s.threads[t]? = some (task :: rest) →
+               ∀ x ∈ rest, ∃ a, x = Task.act a
   outsOK  : ∀ o ∈ s.outs, o.listing = o.began.vals
 
 theorem heldOf_w {s : Sys} {t : Nat} (h : heldOf s t = .w) : s.writer = some t := by
@@ -110,5 +112,80 @@ theorem wlT_cons {h : Held} {task : Task} {rest : List Task} (hw : wlT h (task :
   cases hh : h.afterT task with
   | none => rw [hh] at hw; cases hw
   | some h' => rw [hh] at hw; exact ⟨h', rfl, hw⟩
+
+
+theorem heldOf_congr {s s' : Sys} (hw : s'.writer = s.writer) (hr : s'.readers = s.readers) (u : Nat) :
+    heldOf s' u = heldOf s u := by unfold heldOf; rw [hw, hr]
+
+/-- rebuild `wlAll` after thread `t` replaced its stack -/
+theorem wlAll_step {s s' : Sys} (inv : Inv s) {t : Nat} {old new : List Task} (hth : s.threads[t]? = some old)
+    (hthr : s'.threads = s.threads.set t new)
+    (hother : ∀ u, u ≠ t → heldOf s' u = heldOf s u)
+    (hself : wlT (heldOf s' t) new = true) :
+    ∀ u ts, s'.threads[u]? = some ts → wlT (heldOf s' u) ts = true := by
+  intro u ts hu
+  rw [hthr] at hu
+  by_cases hut : u = t
+  · subst hut
+    rw [get_set_self hth] at hu
+    injection hu with hu; subst hu; exact hself
+  · rw [get_set_other hut] at hu
+    rw [hother u hut]; exact inv.wlAll u ts hu
+
+/-- rebuild `restActs` when the new stack of `t` is the old tail, possibly with a new head -/
+theorem restActs_step {s s' : Sys} (inv : Inv s) {t : Nat} {task : Task} {rest new : List Task}
+    (hth : s.threads[t]? = some (task :: rest)) (hthr : s'.threads = s.threads.set t new)
+    (hnew : new = rest ∨ ∃ x, new = x :: rest) :
+    ∀ (u : Nat) (task' : Task) (rest' : List Task), s'.threads[u]? = some (task' :: rest') →
+      ∀ x ∈ rest', ∃ a, x = Task.act a := by
+  intro u task' rest' hu x hx
+  rw [hthr] at hu
+  have hr := inv.restActs t task rest hth
+  by_cases hut : u = t
+  · subst hut
+    rw [get_set_self hth] at hu
+    injection hu with hu
+    rcases hnew with h | ⟨y, h⟩
+    · rw [h] at hu; rw [hu] at hr
+      exact hr x (List.mem_cons_of_mem _ hx)
+    · rw [h] at hu; injection hu with _ h2; rw [← h2] at hx; exact hr x hx
+  · rw [get_set_other hut] at hu
+    exact inv.restActs u task' rest' hu x hx
+
+theorem not_iterating_of_act {s : Sys} (inv : Inv s) {t : Nat} {a : Act} {rest : List Task}
+    (hth : s.threads[t]? = some (.act a :: rest)) : t ∉ s.iterating := by
+  intro hin
+  obtain ⟨i, r, h, _, _⟩ := inv.iterHead t hin
+  rw [hth] at h; injection h with h; injection h with h; cases h
+
+/-- `iterHead`/`iterConv` when thread `t` (head an `act`, not iterating) moves on to its tail and the
+    map, the iteration set and the per-thread range state are untouched -/
+theorem iter_frame {s s' : Sys} (inv : Inv s) {t : Nat} {a : Act} {rest : List Task}
+    (hth : s.threads[t]? = some (.act a :: rest)) (hthr : s'.threads = s.threads.set t rest)
+    (hm : s'.m = s.m) (hi : s'.iterating = s.iterating) (hacc : s'.acc = s.acc) (hb : s'.began = s.began) :
+    (∀ u ∈ s'.iterating, ∃ i r, s'.threads[u]? = some (.iterNext i :: r) ∧
+        s'.acc u = (s'.m.take i).map (·.2) ∧ s'.began u = s'.m) ∧
+    (∀ u i r, s'.threads[u]? = some (.iterNext i :: r) → u ∈ s'.iterating) := by
+  have hnot := not_iterating_of_act inv hth
+  constructor
+  · intro u hu
+    rw [hi] at hu
+    have hut : u ≠ t := fun e => hnot (e ▸ hu)
+    obtain ⟨i, r, h1, h2, h3⟩ := inv.iterHead u hu
+    refine ⟨i, r, ?_, ?_, ?_⟩
+    · rw [hthr, get_set_other hut]; exact h1
+    · rw [hacc, hm]; exact h2
+    · rw [hb, hm]; exact h3
+  · intro u i r hu
+    rw [hthr] at hu
+    rw [hi]
+    by_cases hut : u = t
+    · subst hut
+      rw [get_set_self hth] at hu
+      injection hu with hu
+      have := inv.restActs u _ _ hth (.iterNext i) (by rw [hu]; exact List.mem_cons_self ..)
+      obtain ⟨a', ha'⟩ := this; cases ha'
+    · rw [get_set_other hut] at hu
+      exact inv.iterConv u i r hu
 
 end Gate.C12
